@@ -32,6 +32,8 @@ type wdScript struct {
 	WI     int    `json:"wi"`
 	RI     int    `json:"ri"`
 	Delay  int    `json:"delay"`
+	HSSlow bool   `json:"hsslow"` // the peer answers only the second CER
+	Redial bool   `json:"redial"` // an earlier connection of the same Client was closed by the application in mid-round
 }
 type wdRound struct {
 	NCopies   int  `json:"ncopies"`
@@ -116,11 +118,16 @@ func runWatchdog(id int, sc *wdScript) wdLine {
 		return false, 0
 	}
 	wfailed := false
+	ncer := 0
 	mc.OnWrite = func(k int, b []byte) memnet.WriteOutcome {
 		msgs, _ := splitMsgs(b)
 		for _, m := range msgs {
 			switch {
 			case m.Cmd == 257 && m.Flags&0x80 != 0:
+				ncer++
+				if sc.HSSlow && ncer == 1 {
+					continue
+				}
 				cea := ceaFor("ok", &m)
 				go mc.Feed(cea)
 			case m.Cmd == 280 && m.Flags&0x80 != 0:
@@ -180,6 +187,37 @@ func runWatchdog(id int, sc *wdScript) wdLine {
 			}
 		}
 		return memnet.WriteOutcome{N: -1}
+	}
+	if sc.Redial {
+		pcA := memnet.NewConn()
+		pcA.SetLocal("10.0.0.9:3868")
+		sawDWR := make(chan struct{}, 1)
+		pcA.OnWrite = func(k int, b []byte) memnet.WriteOutcome {
+			for _, m := range func() []wireMsg { ms, _ := splitMsgs(b); return ms }() {
+				if m.Cmd == 257 && m.Flags&0x80 != 0 {
+					cea := ceaFor("ok", &m)
+					go pcA.Feed(cea)
+				}
+				if m.Cmd == 280 && m.Flags&0x80 != 0 { // never answered
+					select {
+					case sawDWR <- struct{}{}:
+					default:
+					}
+				}
+			}
+			return memnet.WriteOutcome{N: -1}
+		}
+		cA, err := cli.NewConn(pcA, "10.0.0.2:3868")
+		if err != nil || cA == nil {
+			l.Note = "handshake of the earlier connection failed: " + errStr(err)
+			return l
+		}
+		select {
+		case <-sawDWR:
+		case <-time.After(3 * time.Second):
+			l.Note = "no DWR on the earlier connection"
+		}
+		cA.Close() // the application gives up on that peer in the middle of the round and dials again at once
 	}
 	t0 := time.Now()
 	c, err := cli.NewConn(mc, "10.0.0.2:3868")
@@ -283,7 +321,10 @@ type dwaLine struct {
 
 func runDWRs(out *Out, id *int) {
 	ids := []uint32{0, 1, 1 << 31, 0xffffffff, 0x01020304}
-	for _, osid := range []bool{false, true} {
+	// Origin-State-Id absent, and present with an ordinary value, 0 (a peer that keeps no state across restarts)
+	// and the largest value
+	for mode, osidVal := range []uint32{0, 77, 0, 0xffffffff} {
+		osid := mode > 0
 		s := newSMServer(srvSettings, "", nil)
 		s.Conn.Feed(gateMsg("cer_ok", 5))
 		s.Conn.WaitOut(20, 3*time.Second)
@@ -294,7 +335,7 @@ func runDWRs(out *Out, id *int) {
 				// the DWR names its sender as the CER did, in another spelling (names are
 				// case-insensitive), or differently: it is a well-formed DWR all the same
 				reqOH := []string{peerHost, strings.ToUpper(peerHost[:1]) + peerHost[1:], peerHost, "other." + peerHost, peerHost}[k]
-				s.Conn.Feed(buildDWR(h, e, osid, reqOH, peerRealm))
+				s.Conn.Feed(buildDWRv(h, e, osid, osidVal, reqOH, peerRealm))
 				s.Conn.WaitReaderBlocked(3 * time.Second)
 				*id++
 				l := dwaLine{Ev: "dwa", ID: *id, ReqHbH: abs.B4(h), ReqE2E: abs.B4(e), HbH: []int{}, E2E: []int{}, WantOH: string(srvSettings.OriginHost), WantOR: string(srvSettings.OriginRealm), OSID: osid, ReqOH: reqOH}
